@@ -14,7 +14,7 @@ OPK = {1: "Process", 2: "Reopen", 3: "ExtRename", 4: "Pause"}
 # sink that rotates one write late still satisfies C08, so those mismatches are ignored by C08's check.
 RELEVANT = {
     "C08": {"KStd", "KTorn", "KSuffix", "KLoss", "KOrder", "KCrash"},
-    "C15": {"KOk", "KRead", "KFiles", "KMode", "KBw", "KLc", "KDir", "KForeign", "KModeSpec", "KDirSpec", "KActive", "KNoRot", "KCrash"},
+    "C15": {"KOk", "KRead", "KFiles", "KMode", "KBw", "KLc", "KDir", "KForeign", "KModeSpec", "KDirSpec", "KActive", "KNoRot", "KStray", "KCrash"},
 }
 WHAT = {
     "KOk": "the acknowledgement (nil / error) of the call differs from the model",
@@ -33,6 +33,7 @@ WHAT = {
     "KDirSpec": "the directory created on demand is not 0700",
     "KActive": "the name of the active file contradicts TimestampOnlyOnRotate / the rotation settings",
     "KNoRot": "a rotated file appeared although neither MaxBytes nor MaxDuration is set",
+    "KStray": "the sink created a file outside its configured name space (neither FileName nor <stem>-<stamp><ext>)",
     "KCrash": "the directory left behind by SIGKILL is neither the state after the last acknowledged call nor one of the model's crash points of the next call",
 }
 
@@ -143,7 +144,7 @@ def _fails(ctx, binp, case, kind, tag):
 def shrink(ctx, binp, case, kind, budget_s=40):
     """greedy delta debugging on the operation list: drop operations (last to first) while the same kind of mismatch remains"""
     import time
-    if not case.get("ops") or len(case["ops"]) < 2:
+    if not case.get("ops"):
         return case, 0
     t0 = time.time()
     best = dict(case)
@@ -236,8 +237,11 @@ def run(ctx, prop=None, extra_args=None):
             others += 1
     # report the smallest failing case per (kind, op) signature, cut after the first failing step
     sigs = {}
+    # at the same step the most telling kind names the signature
+    prio = {k: i for i, k in enumerate(["KStray", "KForeign", "KTorn", "KLoss", "KSuffix", "KOrder", "KCrash", "KActive", "KModeSpec", "KDirSpec", "KNoRot",
+                                        "KMode", "KDir", "KLc", "KBw", "KFiles", "KRead", "KOk", "KStd"])}
     for cid, ms in by_case.items():
-        ms.sort()
+        ms.sort(key=lambda m: (m[0], prio.get(m[2], 99), m[1]))
         step, opk, kind = ms[0]
         sig = "%s@%s" % (kind, OPK.get(opk, opk))
         n = step + 1
